@@ -71,9 +71,16 @@ def run(ctx):
         ctx.guard(c08.first_name_only, ctx, cfg, fs, 'N.name-once')
         ctx.guard(c08.keep_only, ctx, lambda: c08.name_first(ctx, cfg, fs), lambda o: 'records-position' in o.key, 'N.name-once')
         ctx.guard(consumers.accept_sets, ctx, cfg, fs, 'A.accept-sets')
+        import c18
+        # a flag spelled on the line is CONSUMED from the line whatever its environment variable says (shared with C18)
+        ctx.guard(c08.keep_only, ctx, lambda: c18.flag(ctx, cfg, fs), lambda o: 'take_flag-unconditional' in o.key or 'env-only-when-absent' in o.key, 'C.consumers')
         import wiring
         ctx.guard(wiring.builders, ctx, cfg, fs, 'B.builders')
     ctx.guard(shapes.construct_shapes, ctx, 'W.construct')
+    # the declared grammar of a derived parser: which name a field gets (one character -> short, otherwise long; words; raw identifiers;
+    # non-ASCII) - the naming members of the derive translation validation (shared with C17)
+    import c17
+    ctx.guard(c17.members_agree, ctx, 0, 'D.derive-names', lambda mod, kind, name: mod in ('b_names', 'b_non_ascii', 'b_case_rule', 'b_case_rule_enum', 'b_cmd_multiword', 'b_switch_arg'))
 
 def parsecon(ctx, cfg, fs):
     b = ctx.look(fs.one(r'^<structs::ParseCon<P> as Parser<T>>::eval$'))
